@@ -20,6 +20,7 @@ import os
 
 from mc import core
 from ref import fixedcol as fc
+from ref import isolate
 
 ID = 'C13'
 LEVEL = 'exploration'
@@ -165,10 +166,10 @@ ZERO_PERMS = ['z0', 'z1', 'z2', 'zall']
 
 def specs_cross(tier):
     if tier == 'thorough':
-        ns, nvars, forms = (1, 2, 3), range(1, 13), ('pos', 'neg', 'exp3', 'zero', 'mixed')
+        ns, nvars, forms = (1, 2, 3), range(1, 13), ('pos', 'neg', 'exp3', 'zero', 'mixed', 'lastzero')
         seqs, fams = ('none', 'small', 'big'), FAMILIES
     else:
-        ns, nvars, forms = (1, 3), (1, 3, 4, 5, 8, 9, 12), ('mixed', 'neg', 'exp3')
+        ns, nvars, forms = (1, 3), (1, 3, 4, 5, 8, 9, 12), ('mixed', 'neg', 'exp3', 'lastzero')
         seqs, fams = ('none', 'small'), ('conv0num', 'conv2', 'conv3')
     out = []
     for n, nvar, form, por, perm, seq, (timing, reset), fam in itertools.product(
@@ -215,12 +216,18 @@ def specs_dev(tier):
 def specs_styles(tier):
     out = []
     nvars = (1, 4, 5, 12) if tier == 'thorough' else (3, 5)
-    forms = ('pos', 'neg', 'exp3', 'zero', 'mixed') if tier == 'thorough' else ('mixed', 'neg')
+    forms = ('pos', 'neg', 'exp3', 'zero', 'mixed', 'lastzero') if tier == 'thorough' else ('mixed', 'neg', 'lastzero')
     for nvar, form, perm, (timing, reset), fam in itertools.product(nvars, forms, (False, True),
                                                                    [(False, True), (True, False)],
                                                                    ('conv0num', 'quirk', 'conv3')):
         out.append(mk(2, nvar, form, 'val', perm, 'small', timing, reset, fam, 'exact', styles='cross'))
     return out
+
+
+def specs_trnoperm(tier):
+    """Flavour TOUGHREACT set on the object, no block with permeabilities (incl. no block at all)."""
+    return [mk(n, nvar, 'mixed', 'val', 'tr-none', seq, timing, reset, 'conv0num', 'exact')
+            for n in (0, 1, 2) for nvar in (2, 5) for seq in ('none', 'small') for (timing, reset) in TR]
 
 
 def specs_reuse(tier):
@@ -249,7 +256,8 @@ def specs_shipped(tier):
 
 
 GROUPS = [('cross', specs_cross, 64), ('empty', specs_empty, 1), ('many', specs_many, 12), ('dev', specs_dev, 2),
-          ('styles', specs_styles, 6), ('reuse', specs_reuse, 2), ('shipped', specs_shipped, 11)]
+          ('styles', specs_styles, 6), ('reuse', specs_reuse, 2), ('trnoperm', specs_trnoperm, 1),
+          ('shipped', specs_shipped, 11), ('order', lambda tier: specs_order(tier), 4)]
 
 
 def units(tier):
@@ -314,15 +322,25 @@ def model(spec):
             elif w == 'seq-given':
                 seq = 'big'
         porosity = {'none': None, 'val': 0.1 + 0.0123456789012 * b, 'zero': 0.0}[por]
-        k = [6.51e-14 * (b + 1), 1.2345678901e-15, 3.3e-13 + 1e-20 * b] if perm else None
+        k = [6.51e-14 * (b + 1), 1.2345678901e-15, 3.3e-13 + 1e-20 * b] if perm and perm != 'tr-none' else None
         if perm in ZERO_PERMS:
             for j in ((0, 1, 2) if perm == 'zall' else (int(perm[1]),)):
                 k[j] = 0.0
         nseq, nadd = SEQ[seq]
-        blocks.append({'name': names[b], 'vars': [value(spec['form'], b, i) for i in range(nvar)], 'por': porosity,
+        if spec['form'] == 'lastzero':
+            # an exact zero (minus zero in odd blocks) as the LAST value of every record of variables
+            vs = [((-0.0 if b % 2 else 0.0) if (i % 4 == 3 or i == nvar - 1) else value('pos', b, i)) for i in range(nvar)]
+        else:
+            vs = [value(spec['form'], b, i) for i in range(nvar)]
+        blocks.append({'name': names[b], 'vars': vs, 'por': porosity,
                        'perm': k, 'nseq': nseq, 'nadd': nadd})
-    return {'blocks': blocks, 'timing': dict(TIMING) if spec['timing'] else None,
-            'toughreact': any(b['perm'] is not None for b in blocks)}
+    M = {'blocks': blocks, 'timing': dict(TIMING) if spec['timing'] else None,
+         'toughreact': any(b['perm'] is not None for b in blocks)}
+    if spec['perm'] == 'tr-none':
+        # the object says TOUGHREACT but no block has permeabilities: nothing in a file can say so, the flavour is
+        # not asserted - everything else, the restart record included, is
+        M['object_simulator'] = 'TOUGHREACT'
+    return M
 
 
 def quiet():
@@ -333,7 +351,7 @@ def build(M):
     import numpy as np
     import t2incons
     inc = t2incons.t2incon()
-    if M['toughreact']:
+    if M['toughreact'] or M.get('object_simulator') == 'TOUGHREACT':
         inc.simulator = 'TOUGHREACT'
     for b in M['blocks']:
         inc.add_incon(t2incons.t2blockincon(list(b['vars']), b['name'], b['por'],
@@ -388,6 +406,8 @@ def close(got, want, tol):
 def classes(spec, M):
     nlines = (spec['nvar'] + 3) // 4
     fl = 'TOUGHREACT' if M['toughreact'] else 'TOUGH2'
+    if M.get('object_simulator'):
+        fl = 'TOUGHREACT-without-permeabilities'
     if any(b['perm'] is not None and 0.0 in b['perm'] for b in M['blocks']):
         fl += '+zero-permeability'
     if spec.get('reuse'):
@@ -481,7 +501,7 @@ def cmp_mem(M, D, expect_timing, C, F, ddelta=0):
                 if not close(v, m, fc.half_unit('E', 14 + ddelta, m)):
                     F.add('variable', 'block %r variable %d = %r came back as %r' % (mb['name'], i, m, v), C['vars'])
     want_sim = 'TOUGHREACT' if M['toughreact'] else 'TOUGH2'
-    if D['simulator'] != want_sim:
+    if D['simulator'] != want_sim and not M.get('object_simulator'):
         F.add('simulator', 'simulator %r came back as %r' % (want_sim, D['simulator']), C['flavour'])
     if expect_timing:
         if D['timing'] is None:
@@ -490,6 +510,22 @@ def cmp_mem(M, D, expect_timing, C, F, ddelta=0):
             cmp_timing(M['timing'], D['timing'], 'came back as', C, F, ddelta)
     elif D['timing'] is not None:
         F.add('timing.presence', 'timing %r read although none was written' % (D['timing'],), C['timing'])
+
+
+def dict_diff(a, b):
+    for k in a:
+        if a[k] != b.get(k):
+            if isinstance(a[k], list) and isinstance(b.get(k), list):
+                i = next((i for i, (x, y) in enumerate(zip(a[k], b[k])) if x != y), min(len(a[k]), len(b[k])))
+                return '%s[%d] %r -> %r' % (k, i, a[k][i] if i < len(a[k]) else None, b[k][i] if i < len(b[k]) else None)
+            return '%s %r -> %r' % (k, a[k], b.get(k))
+    return 'keys %r -> %r' % (sorted(a), sorted(b))
+
+
+def line_diff(t1, t2):
+    l1, l2 = t1.split('\n'), t2.split('\n')
+    k = next((i for i, (a_, b_) in enumerate(zip(l1, l2)) if a_ != b_), min(len(l1), len(l2)))
+    return 'line %d: %r -> %r' % (k + 1, l1[k] if k < len(l1) else None, l2[k] if k < len(l2) else None)
 
 
 def file_image(M):
@@ -562,6 +598,7 @@ def evaluate(spec, tier='thorough'):
     try:
         with quiet(), core.timelimit(TIME_LIMIT):
             inc = build(M)
+            before = describe(inc)
             inc.write(f1, reset)
         with open(f1, newline='') as fh:
             bytes1 = fh.read()
@@ -571,6 +608,28 @@ def evaluate(spec, tier='thorough'):
     except Exception as e:
         W.add('raises', 't2incon.write raised %s: %s' % (type(e).__name__, e), type(e).__name__)
     if bytes1 is not None:
+        # write() is an observer: same object afterwards, same bytes from a second write
+        try:
+            after = describe(inc)
+            if after != before:
+                W.add('object-modified-by-write', 'write() changed the object it wrote: %s' % dict_diff(before, after),
+                      C['flavour'])
+            else:
+                fb = os.path.join(d, 'c13_1b.incon')
+                with quiet(), core.timelimit(TIME_LIMIT):
+                    inc.write(fb, reset)
+                with open(fb, newline='') as fh:
+                    bytes1b = fh.read()
+                os.remove(fb)
+                if bytes1b != bytes1:
+                    W.add('second-write-differs', 'writing the same object twice gives different files: %s'
+                          % line_diff(bytes1, bytes1b), C['flavour'] + ',second-call')
+        except core.CaseTimeout:
+            _timeouts[0] += 1
+            W.add('timeout', 'second t2incon.write did not finish in %d s' % TIME_LIMIT, C['flavour'] + ',second-call')
+        except Exception as e:
+            W.add('second-write-raises', 'second write of the same object raised %s: %s' % (type(e).__name__, e),
+                  C['flavour'])
         try:
             R = fc.read_incon(bytes1, spec['nvar'])
             stats['ref_reads'] += 1
@@ -585,6 +644,9 @@ def evaluate(spec, tier='thorough'):
             inc2 = lib_read(f1, spec, check_names)
             stats['round_trips'] += 1
             cmp_mem(M, describe(inc2), long_form, C, B)
+            reread_differs = bool(B.items)
+            # what the reference reader already found wrong in the file comes back wrong: same finding
+            B.items = [it for it in B.items if it[0].split('|')[2] not in W.clauses]
             if hist and 'simulator' in B.clauses:
                 # flavour left over from the reader's earlier file: what follows from it (timing widths, second
                 # write) is the same defect - error states are not expanded
@@ -595,7 +657,7 @@ def evaluate(spec, tier='thorough'):
                     inc2.write(f2, reset)
                 with open(f2, newline='') as fh:
                     bytes2 = fh.read()
-                if bytes2 != bytes1 and not B.items:
+                if bytes2 != bytes1 and not reread_differs:
                     # (when the re-read geometry already differs, a different second file is the same finding)
                     l1, l2 = bytes1.split('\n'), bytes2.split('\n')
                     k = next((i for i, (a_, b_) in enumerate(zip(l1, l2)) if a_ != b_), min(len(l1), len(l2)))
@@ -721,7 +783,10 @@ def shipped_check(spec):
         p = os.path.join(here, fname)
         if os.path.exists(p):
             want = np.load(p)
-            got = get()
+            try:
+                got = get()
+            except ValueError:          # ragged: blocks came back with different numbers of values
+                got = np.zeros(0)
             if want.shape != got.shape or not np.allclose(got, want, rtol=1e-12, atol=0, equal_nan=True):
                 viol.append(('C13|read(shipped)|%s|%s' % (fname, cls), 'values read differ from the stored %s' % fname))
     # round trip from the read object
@@ -758,6 +823,98 @@ def shipped_check(spec):
     return viol, 'shipped', stats
 
 
+# ------------------------------------------------------------------------------------------ order independence
+
+def order_specs(tier):
+    out = specs_dev(tier)[::5] + specs_styles(tier)[::4] + specs_trnoperm(tier)[::4] + specs_cross(tier)[::(400 if tier == 'thorough' else 60)] + \
+        specs_many(tier)[::24]
+    return out
+
+
+def specs_order(tier):
+    n = 4 if tier == 'thorough' else 2
+    return [{'order_pass': i, 'of': n, 'n': 1} for i in range(n)]
+
+
+def observe(spec, tag):
+    """What one case shows: the bytes written and the canonical form of the conditions read back from them."""
+    M = model(spec)
+    p = os.path.join(core.scratch(), 'c13_o_%s.incon' % tag)
+    with quiet():
+        build(M).write(p, spec['reset'])
+    with open(p, newline='') as fh:
+        text = fh.read()
+    D = describe(lib_read(p, spec, spec['names'] != 'conv3', limit=None))
+    return text, D
+
+
+def write_primers():
+    """Legal cases that exercise the width guard of the writers (values over-wide for their fields, written with
+    reduced precision by design), in both file classes that share the fixed-format writer, both flavours."""
+    import numpy as np
+    import mulgrids
+    import t2incons
+    d = core.scratch()
+    with quiet():
+        for sim in ('TOUGH2', 'TOUGHREACT'):
+            inc = t2incons.t2incon()
+            inc.simulator = sim
+            inc['prm 1'] = t2incons.t2blockincon([-1.2345678901234e-101, -2.5e+100, -3.25e5, 4.5, -5.5e-120], 'prm 1',
+                                                 porosity=-0.123456789012,
+                                                 permeability=np.array([-1.5e-13, 1e-101, -2e-101]) if sim != 'TOUGH2' else None,
+                                                 nseq=7, nadd=9)
+            inc.timing = {'kcyc': 1, 'iter': 2, 'nm': 3, 'tstart': -1.23456789012e3, 'sumtim': -1.23456789012e-101}
+            p = os.path.join(d, 'c13_primer.incon')
+            inc.write(p, reset=False)
+            t2incons.t2incon(p, num_variables=5)
+        g = mulgrids.mulgrid().rectangular([100.25, 50.5], [75.75], [10.5, 20.25],
+                                           origin=[12345600.25, -1234567.25, 12345678.25], atmos_type=1)
+        g.write(os.path.join(d, 'c13_primer.dat'))
+        mulgrids.mulgrid(os.path.join(d, 'c13_primer.dat'))
+
+
+def order_pass(spec, tier):
+    """Runs in a forked child: every case; the same cases in reverse order; the primers; the cases again.
+    What a case shows must be the same each time."""
+    cases = order_specs(tier)[spec['order_pass']::spec['of']]
+    out = []
+    with core.timelimit(60.0):
+        first = [observe(c, 'a') for c in cases]
+        second = [observe(c, 'b') for c in reversed(cases)][::-1]
+        write_primers()
+        third = [observe(c, 'c') for c in cases]
+    for c, o1, o2, o3 in zip(cases, first, second, third):
+        for o, after in ((o2, 'other-cases-in-reverse-order'), (o3, 'over-wide-primer')):
+            if o[0] != o1[0]:
+                out.append((c, 'C13|write|bytes-depend-on-history|after=%s' % after,
+                            'the file written for the same case differs from the first time: %s' % line_diff(o1[0], o[0])))
+            elif o[1] != o1[1]:
+                out.append((c, 'C13|read|conditions-depend-on-history|after=%s' % after,
+                            'the same file is read differently from the first time: %s' % dict_diff(o1[1], o[1])))
+    return len(cases), out
+
+
+def run_order_unit(spec, tier, rec):
+    key = json.dumps(spec, sort_keys=True)
+    try:
+        ncases, found = isolate.isolated(order_pass, spec, tier)
+    except isolate.ChildFailed as e:
+        msg = str(e)
+        if 'CaseTimeout' in msg:
+            rec.violation('C13|order-pass|timeout|pass=%d' % spec['order_pass'], 'order-independence pass did not finish',
+                          {'spec': spec, 'tier': tier})
+        else:
+            rec.violation('C13|order-pass|raises|%s' % msg.strip().splitlines()[-1].split(':')[0],
+                          'order-independence pass raised:\n%s' % msg[-1500:], {'spec': spec, 'tier': tier})
+        rec.case(key, outcome='order-pass-failed')
+        return
+    rec.case(key, outcome='order-pass')
+    rec.count('order_pass_cases', ncases)
+    rec.count('order_pass_observations', 3 * ncases)
+    for c, sig, what in found:
+        rec.violation(sig, what, {'spec': c, 'tier': tier, 'order_spec': spec})
+
+
 def run_case(spec, tier):
     if 'shipped' in spec:
         with core.timelimit(SHIPPED_LIMIT[bool(spec.get('big'))]):
@@ -771,6 +928,9 @@ def run_unit(unit, tier, rec):
     _timeouts[0] = 0
     for spec in fn(tier)[idx::k]:
         key = json.dumps(spec, sort_keys=True)
+        if 'order_pass' in spec:
+            run_order_unit(spec, tier, rec)
+            continue
         if _timeouts[0] >= MAX_TIMEOUTS_PER_UNIT:
             rec.case(key, nontrivial=False, outcome='skipped-after-%d-timeouts' % MAX_TIMEOUTS_PER_UNIT)
             rec.count('cap_hit', 1)
@@ -781,6 +941,13 @@ def run_unit(unit, tier, rec):
             _timeouts[0] += 1
             viol, outcome, stats = [('C13|round-trip|timeout|%s,numvar=%s' % (gname, spec.get('numvar')),
                                      'case did not finish within its time limit')], 'timeout', {}
+        except core.HarnessError:
+            raise
+        except Exception as e:
+            # whatever a changed library makes of a case, the case is reported and the unit goes on
+            import traceback
+            viol, outcome, stats = [('C13|round-trip|blow-up|%s,%s' % (gname, type(e).__name__),
+                                     'evaluating the case raised:\n%s' % traceback.format_exc()[-1200:])], 'blow-up', {}
         rec.case(key, nontrivial=spec.get('n', 1) > 0, outcome=outcome)
         for name, n in stats.items():
             rec.count(name, n)
@@ -792,5 +959,8 @@ def run_unit(unit, tier, rec):
 
 
 def replay(case):
+    if 'order_spec' in case:
+        ncases, found = isolate.isolated(order_pass, case['order_spec'], case.get('tier', 'thorough'))
+        return [(sig, what) for c, sig, what in found if c == case['spec']]
     viol, outcome, stats = run_case(case['spec'], case.get('tier', 'thorough'))
     return viol
